@@ -34,7 +34,8 @@ def pyval(spec):
     return spec
 
 
-VALUES = (0, 1, 2, "a", None, "50%", "%s", "{0}", "{}", "{k}", {"py": "NAN"})
+# "0", "1", "None", "1.5": values whose str() coincides with that of another value they are not equal to
+VALUES = (0, 1, 2, "a", None, "50%", "%s", "{0}", "{}", "{k}", {"py": "NAN"}, "0", "1", "None", 1.5, "1.5")
 MODS = (("search", search), ("cachedsearch", cachedsearch))
 
 
